@@ -537,6 +537,71 @@ example : (runRoot2 0 (.concat (.cons (.cached 1 (.orig [97, 59, 98, 10, 99] [10
     ∧ RootHyp2 0 (.concat (.cons (.cached 1 (.orig [97, 59, 98, 10, 99] [102])) (.cons (.rawStr [120]) .nil))) := by
   refine ⟨by decide, ⟨by simp [Src.NoCR, SrcList.NoCRs], by decide, by decide, fun _ _ => rfl⟩⟩
 
+/-- **the whole call alphabet of the property on the wrapper and its clones**: `source()` / `buffer()` / `size()` calls interleaved
+with `map(columns)` / `stream_chunks(columns)` calls in any order, the wrapped tree containing CachedSource nodes of its own.  The
+text views always answer as the wrapped source does (they never touch the caches); the `map` / `stream_chunks` answers are those of
+`c10_root_history_nested`.  (`hash` feeds the hasher the wrapped source's hasher input — C14 / C20.) -/
+theorem c10_root_history_full (id : Nat) (inner : Src) (h : RootHyp2 id inner) (hT : RootHyp inner.strip) (hL : RootHypL inner.strip)
+    (calls : List RCall3) (σ : Store) (h0 : ∀ o, σ.get? (id, o) = none) (hc : Cold σ inner.ids) :
+    ∀ p ∈ (runRoot3 id inner calls σ).1,
+      (match p.1, p.2 with
+       | .src, .text t => t = inner.src
+       | .buffer, .text t => t = inner.buffer
+       | .size, .num n => n = inner.size
+       | .io c2, .io (.stream r) =>
+          (c2.1 = true → attrOf r.evs = attrOf (inner.strip.stream ⟨true, false⟩ []).1.evs)
+          ∧ (c2.1 = false → ∀ L, LNameOf r.evs L = LNameOf (inner.strip.stream ⟨false, false⟩ []).1.evs L)
+       | .io c2, .io (.map m) =>
+          (c2.1 = true → (∀ sm, m = some sm → attrFrom (decode sm.mappings) startPos inner.src = attrOf (inner.strip.stream ⟨true, false⟩ []).1.evs)
+              ∧ (m = none → attrOf (inner.strip.stream ⟨true, false⟩ []).1.evs = List.replicate inner.src.length none))
+          ∧ (c2.1 = false → ∀ sm, m = some sm → ∀ L, 0 < L → LNameM sm L = LNameOf (inner.strip.stream ⟨false, false⟩ []).1.evs L)
+       | _, _ => False) := by
+  intro p hp
+  have hans := runRoot3_answers id inner h calls σ (rootInv2_cold id inner σ h0 hc) p hp
+  have hsrc := Src.strip_src inner
+  obtain ⟨c, a⟩ := p
+  cases c with
+  | src => cases a <;> simp only [AnsOK3] at hans ⊢ <;> first | exact hans | exact hans.elim
+  | buffer => cases a <;> simp only [AnsOK3] at hans ⊢ <;> first | exact hans | exact hans.elim
+  | size => cases a <;> simp only [AnsOK3] at hans ⊢ <;> first | exact hans | exact hans.elim
+  | io c2 =>
+    obtain ⟨col, kind⟩ := c2
+    cases a with
+    | text t => simp only [AnsOK3] at hans
+    | num n => simp only [AnsOK3] at hans
+    | io a2 =>
+      cases a2 with
+      | stream r =>
+        simp only [AnsOK3] at hans ⊢
+        constructor
+        · intro hcol
+          subst hcol
+          rcases hans with rfl | ⟨e, he, rfl⟩
+          · rfl
+          · have := replay_fill_attr inner.strip hT e he
+            rw [hsrc] at this
+            exact this
+        · intro hcol
+          subst hcol
+          intro L
+          rcases hans with rfl | ⟨e, he, rfl⟩
+          · rfl
+          · have := replay_fill_lname id inner.strip hL e he L
+            rw [hsrc] at this
+            exact this
+      | map m =>
+        simp only [AnsOK3] at hans ⊢
+        constructor
+        · intro hcol
+          subst hcol
+          have := fills_resolve inner.strip hT m hans
+          rw [hsrc] at this
+          exact this
+        · intro hcol
+          subst hcol
+          exact fills_resolve_lines inner.strip hL m hans
+
+
 /-! ## the boundary: a CachedSource beneath a ReplaceSource (known finding K5) -/
 
 /-- the witness of K5: `ReplaceSource(CachedSource(ConcatSource[RawBufferSource(";"), SourceMapSource("b", "CAAC")]))` with `"\n"`
